@@ -16,6 +16,9 @@ Four machines share the interleaving semantics `Machine / stepAt / Step / Reach`
                critical sections the theorems about Write / Read talk about.
 * `HsM`      — `handshakeContext`: fast path on the atomic status, `handshakeMutex`, re-check
                of `handshakeErr` / status under the mutex, `in`, one call of `handshakeFn`.
+               `beforeLastClose` / `heldAtReads` read off the extracted programs which mutexes
+               Close needs before it closes the transport and which ones a goroutine parked
+               in a transport read holds.
 * `AcM`      — the `activeCall` interlock between Write-like calls and Close (CAS loops).
 Core Lean only (linked into `oracle_c13`).
 -/
@@ -166,6 +169,23 @@ def consumesGuarded : List Nat → List (Nat × Nat) → Bool
   | held, (1, l) :: r => consumesGuarded (held.erase l) r
   | held, (7, _) :: r => held.contains lkIn && consumesGuarded held r
   | held, _ :: r => consumesGuarded held r
+
+/-- events before the LAST transport close (kind 8) of a method — the walk is flow-insensitive,
+so an early `return c.conn.Close()` branch shows up first; everything a path can acquire before
+it closes the transport is before the last one.  The whole list when there is no close. -/
+def beforeLastClose (evs : List (Nat × Nat)) : List (Nat × Nat) :=
+  match evs.reverse.dropWhile (fun e => e.1 != 8) with
+  | [] => evs
+  | _ :: r => r.reverse
+
+/-- mutexes held at some transport read (kind 9): a goroutine can be parked there, holding them,
+until the peer sends or the transport is closed -/
+def heldAtReads : List Nat → List (Nat × Nat) → List Nat
+  | _, [] => []
+  | held, (0, l) :: r => heldAtReads (l :: held) r
+  | held, (1, l) :: r => heldAtReads (held.erase l) r
+  | held, (9, _) :: r => held ++ heldAtReads held r
+  | held, _ :: r => heldAtReads held r
 
 def lookupProg (progs : List (String × List (Nat × Nat))) (name : String) : List (Nat × Nat) :=
   match progs.find? (fun p => p.1 == name) with
